@@ -200,7 +200,7 @@ func RunLines(s *sut.SUT, f Flags, variant int, lines [][]byte) []LineOut {
 			allFine = false
 		}
 	}
-	if allFine {
+	if allFine && !batchTimedOut(s, f, variant, lines, outs) {
 		anomalyMu.Lock()
 		if len(batchAnomalies) < 5 && (len(lines) <= 4 || len(batchAnomalies) == 0) {
 			var in strings.Builder
@@ -219,6 +219,12 @@ func RunLines(s *sut.SUT, f Flags, variant int, lines [][]byte) []LineOut {
 	return res
 }
 
+// batchTimedOut: a batch whose process was stopped by the watchdog (even after the retry) carries
+// no verdict about context dependence.
+func batchTimedOut(_ *sut.SUT, _ Flags, _ int, _ [][]byte, outs []LineOut) bool {
+	return len(outs) > 0 && outs[0].Timeout
+}
+
 type batchAnomaly struct {
 	Flags Flags
 	Input string
@@ -226,8 +232,10 @@ type batchAnomaly struct {
 }
 
 var (
-	anomalyMu      sync.Mutex
-	batchAnomalies []batchAnomaly
+	anomalyMu       sync.Mutex
+	batchAnomalies  []batchAnomaly
+	watchdogRetries int
+	watchdogBatches int
 )
 
 func countOuts(o []LineOut) int {
@@ -250,6 +258,10 @@ func reportBatchAnomalies(c *ev.Check) {
 		c.Violation("context-dependent-outcome", fmt.Sprintf("%s (flags %s)", a.What, a.Flags), map[string]any{"kind": "sequence", "flags": a.Flags.Args(0, "KEYFILE"), "input": a.Input})
 	}
 	c.Set("batches_whose_outcome_depended_on_context", len(batchAnomalies))
+	c.Set("batches_retried_after_a_watchdog_firing", watchdogRetries)
+	if watchdogBatches > 0 {
+		c.Inconclusive(fmt.Sprintf("the wall-clock watchdog stopped %d batch runs twice (machine overloaded?)", watchdogBatches))
+	}
 	wholeMu.Lock()
 	defer wholeMu.Unlock()
 	for _, a := range contextDiffs {
@@ -314,6 +326,18 @@ func runBatch(s *sut.SUT, f Flags, variant int, lines [][]byte) ([]LineOut, bool
 		args = append(args, "-o", outp)
 	}
 	r := s.CLI(sut.Run{Args: args, Dir: dir})
+	if r.TimedOut {
+		// the wall-clock watchdog says nothing about the program on a loaded machine: one more
+		// attempt with a very generous limit; a second firing makes the check inconclusive
+		os.Remove(outp)
+		r = s.CLI(sut.Run{Args: args, Dir: dir, Timeout: 20 * time.Minute})
+		anomalyMu.Lock()
+		watchdogRetries++
+		if r.TimedOut {
+			watchdogBatches++
+		}
+		anomalyMu.Unlock()
+	}
 	var out []byte
 	if useOut {
 		out, _ = os.ReadFile(outp)
@@ -346,6 +370,7 @@ func runBatch(s *sut.SUT, f Flags, variant int, lines [][]byte) ([]LineOut, bool
 		}
 		return res, true
 	}
+	res[0].Timeout = r.TimedOut
 	return res, false
 }
 
